@@ -83,6 +83,13 @@ class JitCore_Python(jitcore.JitCore):
             # Refresh CPU values according to @cpu instance
             exec_engine.update_engine_from_cpu()
 
+            if has_delayslot:
+                # The pending branch flag is local to a block (as in the C
+                # code generator): forget the one of the previous block
+                exec_engine.symbols.symbols_id[codegen.delay_slot_set] = ExprInt(
+                    0, codegen.delay_slot_set.size
+                )
+
             # Get initial loc_key
             cur_loc_key = asmblock.loc_key
 
